@@ -28,7 +28,7 @@ pub struct MSoak<C: Suite> {
 
 impl<C: Suite> MSoak<C> {
     pub fn new(prop: &'static str, tier: Tier) -> Self {
-        MSoak { prop, n: if tier.thorough() { 66_000 } else { 4200 }, n_produce: if tier.thorough() { 140_000 } else if cfg!(debug_assertions) { 4_200 } else { 70_000 } /* the long producer run belongs to the release pass; the checked pass repeats the short one */, _c: PhantomData }
+        MSoak { prop, n: if tier.thorough() { 66_000 } else { 4200 }, n_produce: if tier.thorough() { 140_000 } else if cfg!(debug_assertions) || prop == "C02" { 4_200 } else { 70_000 } /* the long producer run belongs to the release pass of C01 (signatures) and C09 (proofs); the checked pass and C02, whose subject is the verifier, repeat the short one */, _c: PhantomData }
     }
     fn kinds(&self) -> Vec<Kind> {
         match self.prop {
